@@ -186,9 +186,10 @@ def minimise(pid, scenario, trace, sig, budget=120):
 
 
 def write_replay(pid, scenario, trace, sig, outcome, note=""):
-    os.makedirs(os.path.join(VERIF, "replays"), exist_ok=True)
+    rdir = os.environ.get("VERIF_REPLAY_DIR", os.path.join(VERIF, "replays"))
+    os.makedirs(rdir, exist_ok=True)
     sig8 = hashlib.sha256(sig.encode()).hexdigest()[:8]
-    path = os.path.join(VERIF, "replays", f"{pid}-{scenario.get('world_seed', 0)}-{sig8}.json")
+    path = os.path.join(rdir, f"{pid}-{scenario.get('world_seed', 0)}-{sig8}.json")
     doc = {
         "property": pid,
         "signature": sig,
@@ -299,7 +300,10 @@ def run_check(pid, tier, base_seed, n_worlds=None, workers=None, wall_budget=Non
         o, v = by_sig[sig][0]
         sc, tr = o["scenario"], [t[2] for t in o["trace"]]
         try:
-            msc, mtr, runs = minimise(pid, sc, tr, sig, budget=cfg.get("shrink_budget", 80))
+            budget = 0 if os.environ.get("VERIF_NO_MINIMISE") else cfg.get("shrink_budget", 80)
+            if len(new_sigs) > 6:  # many distinct signatures at once: share the budget
+                budget = max(8, budget // 4) if budget else 0
+            msc, mtr, runs = minimise(pid, sc, tr, sig, budget=budget) if budget else (sc, tr, 0)
             ok, oo = reproduces(pid, msc, mtr, sig)
             if not ok:  # never report an unminimised failure as minimised
                 msc, mtr = sc, tr
@@ -363,8 +367,9 @@ def run_check(pid, tier, base_seed, n_worlds=None, workers=None, wall_budget=Non
         "wall_s": round(wall, 3),
         "violations": len(new_sigs),
     }
-    os.makedirs(os.path.join(VERIF, "evidence"), exist_ok=True)
-    with open(os.path.join(VERIF, "evidence", f"{pid}.json"), "w") as f:
+    edir = os.environ.get("VERIF_EVIDENCE_DIR", os.path.join(VERIF, "evidence"))
+    os.makedirs(edir, exist_ok=True)
+    with open(os.path.join(edir, f"{pid}.json"), "w") as f:
         json.dump(evidence, f, indent=1, default=str)
 
     for ln in lines:
